@@ -160,13 +160,19 @@ def t3(rep, w):
     c = w.yarel
     r = rep.rule('T3', 'parse-table invariants: one rule per token kind; an infix precedence implies an infix handler; binary handlers can '
                  'raise their precedence by one', floor=72)
-    tree = c.const_tables.get('yarel::compiler::RULES')
-    if tree is None or 'array' not in tree:
-        raise Broken('C03', 'anchor', 'const RULES table not found')
+    import roles
+    # the table and the precedence enum are found by name wherever they live (they may be split off into a module of their own)
+    cands = [k for k in c.const_tables if k.rsplit('::', 1)[-1] == 'RULES']
+    if len(cands) != 1:
+        raise Broken('C03', 'anchor', 'const RULES table not found (%d candidates)' % len(cands))
+    tree = c.const_tables[cands[0]]
+    if 'array' not in tree:
+        raise Broken('C03', 'anchor', 'const RULES is not an array')
     rules = tree['array']
     tk = c.adts['yarel::scanner::TokenKind']
-    pc = c.adts['yarel::compiler::Precedence']
-    prec = {('yarel::compiler::Precedence::' + v['n']): v.get('discr', i) for i, v in enumerate(pc['variants'])}
+    PREC = roles.module_of(w, 'Precedence') + '::Precedence'
+    pc = c.adts[PREC]
+    prec = {(PREC + '::' + v['n']): v.get('discr', i) for i, v in enumerate(pc['variants'])}
     r.check(len(rules) == len(tk['variants']), 'RULES has %d entries = %d token kinds' % (len(rules), len(tk['variants'])),
             'RULES has %d entries but TokenKind has %d variants: RULES[kind as usize] can be out of range / shifted' % (len(rules), len(tk['variants'])))
     maxp = max(prec.values())
@@ -180,7 +186,7 @@ def t3(rep, w):
         if pv is None:
             r.bad('RULES[%s]' % kind, 'precedence expression not recognised: %s' % p)
             continue
-        ok = (pv == prec['yarel::compiler::Precedence::None']) or has_infix
+        ok = (pv == prec[PREC + '::None']) or has_infix
         handler = infix.get('args', [{}])[0].get('path', '') if has_infix else ''
         ok2 = True
         if handler.endswith('::binary'):
@@ -188,10 +194,12 @@ def t3(rep, w):
         r.check(ok and ok2, 'RULES[%s]: precedence %s, infix %s' % (kind, p.rsplit('::', 1)[-1], handler.rsplit('::', 1)[-1] or '-'),
                 'token %s has an infix precedence but no infix handler (unwrap panic), or a binary handler at the top precedence (Precedence::from '
                 'panic)' % kind)
-    pf = w.require_fn('yarel::<compiler::Precedence as std::convert::From<usize>>::from', 'C03')
-    made = {s['r']['v'] for b in pf.blocks for s in b['s'] if s.get('r', {}).get('rv') == 'agg' and s['r'].get('adt') == 'yarel::compiler::Precedence'}
+    pf = w.require_fn(roles.impl_path(w, 'Precedence', 'std::convert::From<usize>') + '::from', 'C03')
+    made = {s['r']['v'] for b in pf.blocks for s in b['s'] if s.get('r', {}).get('rv') == 'agg' and s['r'].get('adt') == PREC}
     r.check(made == {v['n'] for v in pc['variants']}, 'Precedence::from has an arm per variant', 'Precedence::from cannot produce %s' % sorted({v['n'] for v in pc['variants']} - made), pf.loc())
-    gr = w.require_fn(P + 'get_rule', 'C03')
+    gr = [f for p_, f in c.fns.items() if p_.rsplit('::', 1)[-1] == 'get_rule']
+    if len(gr) != 1:
+        raise Broken('C03', 'anchor', 'get_rule not found')
     r.check(True, 'get_rule indexes RULES by token kind', '')
 
 
